@@ -2,8 +2,8 @@ SPECIFICATION Spec
 CONSTANTS
   MaxLen = 3
   GuardMode = "all"
-  CacheBeforeGuard <- NoApis
-  NormAfterGuard <- AllApiNames
+  CacheBeforeGuard <- AllApiNames
+  NormAfterGuard <- NoApis
   Classes <- CoreClasses
 INVARIANTS Confined
 CHECK_DEADLOCK FALSE
